@@ -1,6 +1,9 @@
 //! C10 — JaCoCo XML report fidelity.
 //! (1) property oracle: `parse_jacoco_xml_report(render tree) = sem tree` on generated well-formed
-//!     report trees (all serialisation choices drawn from the rng), with shrinking;
+//!     report trees (all serialisation choices drawn from the rng), with shrinking – judged only
+//!     inside the property's quantifier (method names unique within their class, every method with
+//!     a `line`); trees with overloaded or line-less methods are generated all the same, tied to
+//!     the model, and counted as observation.overload / observation.noline;
 //! (2) tie of the real parser to the Lean event-level model `Jacoco.parse` (driver gm_c10) on the
 //!     well-formed stream and on a malformed stream (tree-level mutations, stray end tags, cuts);
 //!     the tree -> event-list serialiser is itself checked against quick-xml's tokenizer;
@@ -8,7 +11,8 @@
 //! (4) corpus: the witnesses of the former hang (EOF inside a nested element; fixed in /repo
 //!     34e25d5: now `err Parse`) re-checked in a child process with a wall-clock limit – a
 //!     recurrence is a plain violation; one named finding (cb/mb are allocation sizes,
-//!     C14-jacoco-branch-vector-alloc) observed in a child process.
+//!     C14-jacoco-branch-vector-alloc) observed in a child process and, as the capacity-overflow
+//!     panic of cb >= 2^63, in-process (corpus witness `big`).
 mod gen;
 mod mal;
 mod ties;
@@ -26,21 +30,14 @@ use std::time::{Duration, Instant};
 use tree::*;
 
 const F_ALLOC: &str = "C14-jacoco-branch-vector-alloc";
-/// named matcher: the report has two `<method>` elements that yield the same function name
-/// `Class#name` on the same file record (same class, different `desc`: overloads) whose
-/// (line, executed) differ, and parse_jacoco_xml_report returns the report's meaning with, for each
-/// such name, ONE function carrying the values of the LAST of them (parser.rs
-/// parse_jacoco_report_class: `functions.insert(format!("{}#{}", class_name, name), …)`, `desc` not read).
-/// Property clause: "Every <method> of every <class> yields a function named Class#method …
-/// executed iff its METHOD counter has covered > 0".
-const F_OVERLOAD: &str = "C10-overloaded-methods-collapse";
-/// named matcher: every element of the report is well formed and DTD-valid, some `<method>` has no
-/// `line` attribute (report.dtd: #IMPLIED), and parse_jacoco_xml_report returns
-/// Err(InvalidRecord("Attribute line not found")) for the whole report (parser.rs
-/// parse_jacoco_report_class: `get_xml_attribute(parser, e, "line")?`).
-const F_NOLINE: &str = "C10-method-without-line-rejects-report";
-/// at most this many generated cases are reported per named finding (plus its corpus witness)
-const FINDING_CASES: u32 = 2;
+/// Observations OUTSIDE the property's quantifier ("methods with names unique within their class",
+/// "the method's line attribute"): such documents are generated, run on the real parser and tied
+/// to the model, but the property oracle does not judge them; they are counted as
+/// `observation.overload` / `observation.noline` (Lean: C10_fidelity_overloads,
+/// C10_repeated_method_last_wins, C10_method_without_line_rejects_the_report; witnesses exOverload,
+/// exNoLine = the corpus cases `overload` and `noline` below).
+const OBS_OVERLOAD: &str = "observation.overload";
+const OBS_NOLINE: &str = "observation.noline";
 /// an in-process parse that takes longer than this is reported by the watchdog
 const INPROC_LIMIT_S: u64 = 10;
 
@@ -224,8 +221,8 @@ fn case_json(c: &Case, model: &str) -> Value {
 }
 
 /// what the CODE is expected to return (model-free): a `<method>` without `line` rejects the
-/// report; a repeated function name keeps its last method. What the PROPERTY says of those two
-/// cases is evaluated by `property_verdict`.
+/// report; a repeated function name keeps its last method. Both cases are outside the property's
+/// quantifier (`outside_quantifier`): there this value is only what the model tie is expected to show.
 fn spec_of(doc: &Doc) -> String {
     if has_lineless_method(doc) {
         return "err InvalidRecord".to_string();
@@ -233,74 +230,20 @@ fn spec_of(doc: &Doc) -> String {
     format!("ok {}", show_results(&sem(doc))).trim_end().to_string()
 }
 
-enum Verdict {
-    Holds,
-    /// the property is violated in the way a named matcher describes
-    Finding(&'static str, String),
-    /// violated in some other way
-    Violated,
-}
-
-/// the property oracle on the implementation's own output for `doc`
-fn property_verdict(doc: &Doc, imp: &str) -> Verdict {
+/// is the document inside the property's quantifier? `Some(label)` when it is not
+fn outside_quantifier(doc: &Doc) -> Option<&'static str> {
     if has_lineless_method(doc) {
-        // a DTD-valid report: the property promises a result ("every <method> … yields a function")
-        return if imp == "err InvalidRecord" {
-            Verdict::Finding(
-                F_NOLINE,
-                "a well-formed, DTD-valid report in which a <method> has no `line` attribute (report.dtd: #IMPLIED; JaCoCo omits it for classes without debug information) is rejected as a whole: Err(InvalidRecord)".into(),
-            )
-        } else if imp.starts_with("ok") {
-            Verdict::Holds
-        } else {
-            Verdict::Violated
-        };
-    }
-    if let Some(c) = overload_conflict(doc) {
-        // no output can give both methods their own function under one name
-        return if imp == spec_of(doc) {
-            Verdict::Finding(
-                F_OVERLOAD,
-                format!("overloaded methods collapse into one function carrying the LAST one's line/executed: {}", c),
-            )
-        } else {
-            Verdict::Violated
-        };
-    }
-    if imp == spec_of(doc) {
-        Verdict::Holds
+        Some(OBS_NOLINE)
+    } else if has_repeated_method_name(doc) {
+        Some(OBS_OVERLOAD)
     } else {
-        Verdict::Violated
+        None
     }
 }
 
-fn report_finding(rep: &mut Report, id: &'static str, what: String, doc: &Doc, shrink: bool) {
-    let min = if shrink {
-        shrink_doc(doc, &mut |d| matches!(property_verdict(d, &run_impl(&render(d))), Verdict::Finding(i, _) if i == id))
-    } else {
-        doc.clone()
-    };
-    let toks = tokens(&lower(&min));
-    let xml = xml_of(&toks);
-    let imp = run_impl(&xml);
-    // describe the minimised case, not the one it came from
-    let what = match property_verdict(&min, &imp) {
-        Verdict::Finding(i, w) if i == id => w,
-        _ => what,
-    };
-    rep.fail(
-        "oracle",
-        Some(id),
-        what,
-        json!({"op": "finding.c10", "finding": id, "xml_hex": fhex(&xml), "xml": String::from_utf8_lossy(&xml),
-               "request": request_of(&events_of(&toks)), "impl": imp,
-               "spec": if id == F_NOLINE { "ok …: the method without `line` yields a function like every other" }
-                       else { "every <method> yields its own function: executed iff ITS METHOD counter has covered > 0" }}),
-    );
-}
-
-/// fixed witnesses of the two C10 finding candidates and of the capacity-overflow panic, run on the
-/// real parser and sent to the model like every other case
+/// fixed witnesses of the two observations outside the quantifier (counted, tied to the model, not
+/// judged) and of the capacity-overflow panic (known finding C14-jacoco-branch-vector-alloc), run
+/// on the real parser and sent to the model like every other case
 fn corpus_findings(rep: &mut Report, cases: &mut Vec<Case>) {
     let overload: &[u8] = b"<report name=\"r\"><package name=\"p\"><class name=\"p/A\" sourcefilename=\"A.java\"><method name=\"&lt;init&gt;\" desc=\"(I)V\" line=\"3\"><counter type=\"METHOD\" missed=\"0\" covered=\"1\"/></method><method name=\"&lt;init&gt;\" desc=\"()V\" line=\"7\"><counter type=\"METHOD\" missed=\"1\" covered=\"0\"/></method></class></package></report>";
     let noline: &[u8] = b"<report name=\"r\"><package name=\"p\"><class name=\"p/A\" sourcefilename=\"A.java\"><method name=\"m\" desc=\"()V\"/></class></package></report>";
@@ -308,28 +251,36 @@ fn corpus_findings(rep: &mut Report, cases: &mut Vec<Case>) {
     let mut last_wins = grcov::CovResult::default();
     last_wins.functions.insert("A#<init>".to_string(), grcov::Function { start: 7, executed: false });
     let want_overload = format!("ok {}", show_results(&[("p/A.java".to_string(), last_wins)])).trim_end().to_string();
-    for (name, xml, collapsed, id, what) in [
-        ("overload", overload, want_overload.as_str(), F_OVERLOAD,
-         "corpus witness (Lean: exOverload): <init>(I)V at line 3, executed, followed by <init>()V at line 7, not executed, is reported as ONE function A#<init>, line 7, not executed"),
-        ("noline", noline, "err InvalidRecord", F_NOLINE,
-         "corpus witness (Lean: exNoLine): <method name=\"m\" desc=\"()V\"/> (no `line`: class without debug information) makes the whole report Err(InvalidRecord)"),
-        ("big", big, "panic", F_ALLOC,
+    for (name, xml, expected, finding, what) in [
+        ("overload", overload, want_overload.as_str(), None,
+         "observation (Lean: exOverload): <init>(I)V at line 3, executed, followed by <init>()V at line 7, not executed, is reported as ONE function A#<init>, line 7, not executed"),
+        ("noline", noline, "err InvalidRecord", None,
+         "observation (Lean: exNoLine): <method name=\"m\" desc=\"()V\"/> (no `line`: class without debug information) makes the whole report Err(InvalidRecord)"),
+        ("big", big, "panic", Some(F_ALLOC),
          "corpus witness (Lean: exBig): cb=\"18446744073709551615\" makes `vec![true; cb as usize]` panic with 'capacity overflow' (the same allocation site as the memory finding; a crash, not only memory)"),
     ] {
         let imp = run_impl(xml);
         rep.case(&format!("corpus.{} {}", name, fhex(xml)), true);
         rep.count(&format!("corpus.{}.{}", name, imp.split(' ').take(2).collect::<Vec<_>>().join(" ")));
         let events = qx_events(xml).unwrap_or_default();
-        if imp == collapsed {
-            rep.fail(
+        match finding {
+            Some(id) if imp == expected => rep.fail(
                 "oracle",
                 Some(id),
                 what.to_string(),
                 json!({"op": "finding.c10", "finding": id, "xml_hex": fhex(xml), "xml": String::from_utf8_lossy(xml),
                        "request": request_of(&events), "impl": imp}),
-            );
-        } else {
-            rep.count(&format!("corpus.{}.absent", name));
+            ),
+            Some(_) => rep.count(&format!("corpus.{}.absent", name)),
+            None => {
+                // outside the quantifier: recorded, not judged; a change of behaviour shows up here
+                // (and in the tie, since the model says `expected`)
+                rep.count(if name == "overload" { OBS_OVERLOAD } else { OBS_NOLINE });
+                if imp != expected {
+                    rep.count(&format!("corpus.{}.behaviour_changed", name));
+                    rep.notes.push(format!("{} – now gives '{}'", what, imp));
+                }
+            }
         }
         cases.push(Case { stream: format!("corpus.{}", name), request: request_of(&events), xml: xml.to_vec(), spec: None, imp, child: false, timeout_ms: 0 });
     }
@@ -337,8 +288,9 @@ fn corpus_findings(rep: &mut Report, cases: &mut Vec<Case>) {
 fn render(doc: &Doc) -> Vec<u8> {
     xml_of(&tokens(&lower(doc)))
 }
+/// the property oracle: judged only inside the quantifier
 fn oracle_fails(doc: &Doc) -> bool {
-    matches!(property_verdict(doc, &run_impl(&render(doc))), Verdict::Violated)
+    outside_quantifier(doc).is_none() && run_impl(&render(doc)) != spec_of(doc)
 }
 
 fn self_check(rep: &mut Report, stream: &str, xml: &[u8], events: &[String]) {
@@ -387,7 +339,7 @@ fn check_oracle(rep: &mut Report, doc: &Doc, shrunk: &mut u32) -> bool {
 
 pub fn run(rep: &mut Report) {
     rep.rule = "JaCoCo report trees (1-3 packages, 0-4 classes incl. nested / several per file / fallback file name, 0-4 \
-                methods with entity-worthy names, overloaded (repeated) names in 1/4 of the further methods of a class, 1/150 without `line`, 0-3 sourcefiles, 0-8 lines with all (mb+cb>0, ci>0) combinations, groups, \
+                methods with entity-worthy names, overloaded (repeated) names in 1/12 of the further methods of a class, 1/150 without `line` (both outside the property's quantifier: counted as observation.overload / observation.noline, tied to the model, not judged by the oracle), 0-3 sourcefiles, 0-8 lines with all (mb+cb>0, ci>0) combinations, groups, \
                 session info, counters at every level, comments/PI/CDATA/text) serialised with random attribute order, extra \
                 attributes, quotes, entity/charref escaping, empty-element vs start/end, prefixes, whitespace; each compared \
                 with the independent semantics (oracle) and with the Lean event model; plus a malformed stream (one \
@@ -424,7 +376,6 @@ pub fn run(rep: &mut Report) {
     let mut cases: Vec<Case> = vec![];
     let mut isj_samples: Vec<Vec<u8>> = vec![];
     corpus_findings(rep, &mut cases);
-    let mut reported: std::collections::BTreeMap<&'static str, u32> = Default::default();
 
     // ---- truncation between elements inside a package: `err Parse` since 34e25d5 (in-process, under
     // the watchdog: a recurrence of the endless loop is reported by it as an oracle failure) ----------
@@ -512,19 +463,14 @@ pub fn run(rep: &mut Report) {
             rep.count("wf.record.duplicate_path_across_packages");
         }
         rep.count(&format!("wf.records.{}", results.len().min(6)));
-        let lineless = has_lineless_method(&doc);
-        match property_verdict(&doc, &imp) {
-            Verdict::Holds => {}
-            Verdict::Finding(id, what) => {
-                rep.count(&format!("wf.finding.{}", id));
-                let n = reported.entry(id).or_insert(0);
-                if *n < FINDING_CASES {
-                    *n += 1;
-                    report_finding(rep, id, what, &doc, true);
+        let outside = outside_quantifier(&doc);
+        match outside {
+            Some(label) => rep.count(label),
+            None => {
+                rep.count("wf.inside_quantifier");
+                if imp != spec {
+                    check_oracle(rep, &doc, &mut shrunk);
                 }
-            }
-            Verdict::Violated => {
-                check_oracle(rep, &doc, &mut shrunk);
             }
         }
         if i % 40 == 0 && isj_samples.len() < 40 {
@@ -534,8 +480,8 @@ pub fn run(rep: &mut Report) {
             stream: "wellformed".into(),
             request: request_of(&events),
             xml,
-            // a report the parser is expected to reject carries no spec: the tie always speaks
-            spec: if lineless { None } else { Some(spec) },
+            // outside the quantifier there is no spec: the tie with the model always speaks
+            spec: if outside.is_some() { None } else { Some(spec) },
             imp,
             child: false,
             timeout_ms: 0,
@@ -755,12 +701,7 @@ pub fn replay(rep: &mut Report, case: &Value) {
             let xml = unhex(&s("xml_hex"));
             let imp = run_impl(&xml);
             rep.case(&fhex(&xml), true);
-            let id = match s("finding").as_str() {
-                x if x == F_OVERLOAD => Some(F_OVERLOAD),
-                x if x == F_NOLINE => Some(F_NOLINE),
-                x if x == F_ALLOC => Some(F_ALLOC),
-                _ => None,
-            };
+            let id = if s("finding") == F_ALLOC { Some(F_ALLOC) } else { None };
             if imp == s("impl") {
                 rep.fail("oracle", id, format!("the recorded witness still gives '{}'", imp), case.clone());
             }
